@@ -58,6 +58,7 @@ class Model:
                 self.norm_log["<renames>"] = rl
             NZ.REBOUND[0] = NZ.collect_rebound(list(parsed.values()))
             NZ.MULTIPLY_DEFINED[0] = NZ.collect_multiply_defined(list(parsed.values()))
+            NZ.INHERITED_HELPERS[0] = NZ.collect_inherited_helpers(parsed, vocab)
             NZ.REBOUND_SITES[0] = NZ.collect_rebound_sites(list(parsed.values()))
         for rel, tree in parsed.items():
             if True:
